@@ -136,6 +136,15 @@ def main(inp, outp):
                   Doppler((sta, "sat"), DATE, 0).from_orbit(sv).value]
             clause("simulated azimuth / elevation / range-rate measures are the topocentric quantities", abs(mm[0] - loc.theta) <= 1e-12 and
                    abs(mm[1] - loc.phi) <= 1e-12 and abs(mm[2] - loc.r_dot) <= 1e-12, "topo/measure-angles", f"{mm}", data)
+            # a second object observed by the same station at the same date, right after the first one (two satellites tracked at
+            # one epoch, a nominal and a perturbed state ...): its measures are its own
+            sv2 = StateVector(list(tp + np.array([1500.0, -2500.0, 800.0])) + list(offv + np.array([3.0, -1.0, 2.0])), DATE, "cartesian", "ITRF")
+            loc2 = sv2.copy(frame=sta, form="spherical")
+            m2 = [Range((sta, "sat"), DATE, 0).from_orbit(sv2).value, Azimut((sta, "sat"), DATE, 0).from_orbit(sv2).value,
+                  Elevation((sta, "sat"), DATE, 0).from_orbit(sv2).value, Doppler((sta, "sat"), DATE, 0).from_orbit(sv2).value]
+            clause("measures of a second object at the same station and date are that object's own topocentric quantities",
+                   abs(m2[0] - loc2.r) <= 1e-6 and abs(m2[1] - loc2.theta) <= 1e-12 and abs(m2[2] - loc2.phi) <= 1e-12 and abs(m2[3] - loc2.r_dot) <= 1e-12,
+                   "topo/measure-second-object", f"{m2} expected {[loc2.r, loc2.theta, loc2.phi, loc2.r_dot]}", data)
         res["nontrivial"].append(json.dumps([v["lat"], v["lon"]]))
         if len(res["samples"]) < 2:
             res["samples"].append({"station": data, "axes_north": ax["north"].tolist()})
